@@ -75,6 +75,10 @@ func (s *findServer) ServeHTTP(w http.ResponseWriter, r *http.Request) {
 
 func c19GenResults(r *rand.Rand) []model.ProviderResult {
 	n := []int{0, 1, 1, 2, 3, 5, 20}[r.Intn(7)]
+	big := r.Intn(40) == 0 // now and then a response of a few hundred KiB
+	if big {
+		n = []int{30, 120, 400}[r.Intn(3)]
+	}
 	out := make([]model.ProviderResult, n)
 	for k := range out {
 		var ctx, md []byte
@@ -91,6 +95,9 @@ func c19GenResults(r *rand.Rand) []model.ProviderResult {
 			md = []byte{}
 		default:
 			md = rbytes(r, 1+r.Intn(100))
+			if big {
+				md = rbytes(r, 512+r.Intn(8192))
+			}
 		}
 		ai := &peer.AddrInfo{ID: AnyIdent(r).ID}
 		if r.Intn(3) == 0 {
@@ -189,6 +196,9 @@ func c19Client(c *vf.Ctx, st *findServer, srv *httptest.Server) {
 					c.Fail(sub, i, "find-results-differ", fmt.Sprintf("got\n %s\nwant\n %s", strings.Join(got, "\n "), strings.Join(want, "\n ")), wit())
 				}
 				c.Inc("nonempty_sets")
+				if len(lists[k]) >= 30 {
+					c.Inc("large_result_sets")
+				}
 			}
 			// batch: results for every multihash with a non-empty set, in request order
 			resp, err := client.FindBatch(context.Background(), cl, mhs)
